@@ -73,6 +73,11 @@ void harness(void) {
 	VF_NONDET(size_t, gk);
 	VF_FRESH_PTR_OPT(size_t, offset_ret, sizeof(size_t));
 	vf_hm_n = 0; vf_rad_k = gk;
+#if VF_MA_CASE == 1		/* one solver run per lookup path */
+	VF_ASSUME(offset != 0);	/* attribute given by offset: radius_pkt_attr_get_from_offset */
+#elif VF_MA_CASE == 2
+	VF_ASSUME(offset == 0);	/* attribute searched: radius_pkt_attr_find_raw */
+#endif
 #if defined(VF_FN_ma_chk)
 	r = radius_pkt_attr_msg_authenticator_chk((rad_pkt_hdr_p)pkt, offset, key, key_len, inside, (rad_pkt_hdr_p)req, offset_ret);
 #else
